@@ -28,9 +28,11 @@ import (
 )
 
 type scenario struct {
-	Mode      string  `json:"mode"`  // union-field | combine-fields | lattice
-	API       string  `json:"api"`   // March | MarchOnAttribute | MarchParallel | Field.March
-	Adder     string  `json:"adder"` // AddField | AddFieldParallel | AddFieldParallel2 (how the canvas is filled)
+	Mode      string  `json:"mode"`                         // union-field | combine-fields | lattice
+	API       string  `json:"api"`                          // March | MarchOnAttribute | MarchParallel | Field.March
+	Adder     string  `json:"adder"`                        // AddField | AddFieldParallel | AddFieldParallel2 (how the canvas is filled)
+	Reuse     int     `json:"caller_slice_reuse,omitempty"` // what the caller does to the slice it built the union from (reuseNames)
+	Spare     int     `json:"caller_slice_spare_capacity,omitempty"`
 	Attr      string  `json:"attribute"`
 	CPU       float64 `json:"cubes_per_unit"`
 	Cut       float64 `json:"threshold"`
@@ -183,6 +185,9 @@ func genAnalytic(r *rand.Rand, long bool) *scenario {
 		}
 		sc.Shapes = append(sc.Shapes, s)
 	}
+	if sc.Mode == "combine-fields" {
+		sc.Reuse, sc.Spare = r.Intn(len(reuseNames)), r.Intn(4)
+	}
 	if sc.Mode == "union-field" {
 		sc.Margin = uni(r, 1, 4)
 		if r.Intn(2) == 0 {
@@ -259,25 +264,18 @@ func (sc *scenario) tableFunc() sample.Vec3ToFloat {
 }
 
 // polyformField assembles the field the way a user would.
-func (sc *scenario) polyformField() (f marching.Field, builder string) {
+func (sc *scenario) polyformField() (f marching.Field, builder, complaint string) {
 	switch sc.Mode {
 	case "lattice":
-		return marching.Field{Domain: aabb(sc.DomLo, sc.DomHi), Float1Functions: map[string]sample.Vec3ToFloat{sc.Attr: sc.tableFunc()}}, "table field"
+		return marching.Field{Domain: aabb(sc.DomLo, sc.DomHi), Float1Functions: map[string]sample.Vec3ToFloat{sc.Attr: sc.tableFunc()}}, "table field", ""
 	case "union-field":
 		fs := make([]sample.Vec3ToFloat, len(sc.Shapes))
 		for i, s := range sc.Shapes {
 			fs[i] = s.polySDF()
 		}
-		return marching.Field{Domain: aabb(sc.DomLo, sc.DomHi), Float1Functions: map[string]sample.Vec3ToFloat{sc.Attr: sdf.Union(fs...)}}, "sdf.Union field"
+		return marching.Field{Domain: aabb(sc.DomLo, sc.DomHi), Float1Functions: map[string]sample.Vec3ToFloat{sc.Attr: sdf.Union(fs...)}}, "sdf.Union field", ""
 	default:
-		fields := make([]marching.Field, len(sc.Shapes))
-		for i, s := range sc.Shapes {
-			fields[i] = s.polyField()
-		}
-		if len(fields) > 1 && sc.Shapes[0].Strength == 1.5 {
-			return fields[0].Combine(fields[1:]...), "marching.Field.Combine"
-		}
-		return marching.CombineFields(fields...), "marching.CombineFields"
+		return combineWithReuse(sc.Shapes, 1/sc.CPU, sc.Reuse, sc.Spare, len(sc.Shapes) > 1 && sc.Shapes[0].Strength == 1.5)
 	}
 }
 
@@ -289,7 +287,11 @@ func (sc *scenario) describe() string {
 	if sc.Mode == "lattice" {
 		sh = append(sh, fmt.Sprintf("random table %v at lattice origin %v, %.0f%% negative", sc.TableN, sc.TableBase, sc.NegShare*100))
 	}
-	return fmt.Sprintf("%s via %s+%s, cubesPerUnit=%v threshold=%v, %s [%s]", sc.Mode, sc.Adder, sc.API, sc.CPU, sc.Cut, sc.Placement, strings.Join(sh, "; "))
+	reuse := ""
+	if sc.Mode == "combine-fields" && len(sc.Shapes) >= 2 && sc.Reuse > 0 {
+		reuse = ", source slice " + reuseNames[sc.Reuse] + " before sampling"
+	}
+	return fmt.Sprintf("%s via %s+%s%s, cubesPerUnit=%v threshold=%v, %s [%s]", sc.Mode, sc.Adder, sc.API, reuse, sc.CPU, sc.Cut, sc.Placement, strings.Join(sh, "; "))
 }
 
 func (sc *scenario) kinds() string {
@@ -321,9 +323,19 @@ func execute(c *run.Ctx, sc *scenario) run.Result {
 	desc := sc.describe()
 	var field marching.Field
 	var builder string
-	if p := run.Try(func() { field, builder = sc.polyformField() }); p != nil {
+	var complaint string
+	if p := run.Try(func() { field, builder, complaint = sc.polyformField() }); p != nil {
 		res.Violate("field-constructor-panic", "marching field constructors", sc.Mode, fmt.Sprintf("%s (at %s) || case: %s", p.Value, p.Site, desc), sc)
 		return res
+	}
+	if complaint != "" {
+		res.Violate("caller-slice-modified", builder, sc.Mode, complaint+" || case: "+desc, sc)
+	}
+	if sc.Mode == "combine-fields" && len(sc.Shapes) >= 2 {
+		res.SetAdd("caller_slice_reuse", fmt.Sprintf("%s: slice %s, spare capacity %d", builder, reuseNames[sc.Reuse], min(sc.Spare, 1)))
+		if sc.Reuse > 0 {
+			res.Count("unions_whose_source_slice_was_reused_before_sampling", 1)
+		}
 	}
 	dmin, dmax := field.Domain.Min(), field.Domain.Max()
 	rec := newRecorder(sc.CPU, vec{dmin.X(), dmin.Y(), dmin.Z()}, vec{dmax.X(), dmax.Y(), dmax.Z()})
@@ -778,7 +790,7 @@ func Spec() *run.Spec {
 			"active_cells_on_block_face": 1000, "active_cells_on_block_edge": 50, "active_cells_on_block_corner": 5,
 			"cases_with_negative_block_coordinates": 20, "long_capsules_over_3_or_more_blocks": 1, "entry_points": 4, "field_builders": 3,
 			"adders": 3, "adder_x_builder_x_march": 20, "parallel_adder_cases_multiblock_combinefields_2plus_shapes": 5, "parallel_adder_cases_multiblock_sdf_union_2plus_shapes": 5,
-			"parallel_fill_cases": 16, "directed_boundary_cases": 60, "boundary_placements": 60, "histories": 12, "history_marches_after_a_later_add_allocated_new_blocks": 12, "history_marches_compared_with_a_fresh_canvas": 12, "directed_seam_cases": 10, "cases_with_seam_weld_trigger": 10, "fieldmarch_cube_configurations": 250,
+			"unions_whose_source_slice_was_reused_before_sampling": 15, "caller_slice_reuse": 8, "parallel_fill_cases": 16, "directed_boundary_cases": 60, "boundary_placements": 60, "histories": 12, "history_fields_combined_from_a_reused_slice": 6, "history_marches_after_a_later_add_allocated_new_blocks": 12, "history_marches_compared_with_a_fresh_canvas": 12, "directed_seam_cases": 10, "cases_with_seam_weld_trigger": 10, "fieldmarch_cube_configurations": 250,
 		},
 		Phases: []run.Phase{
 			{Name: "analytic", Cases: func(t string) int {
